@@ -73,5 +73,12 @@ Definition render_rows_fn : fdef :=
      f_body := [(SAssign (TName "null") (XAttr (XName "ctx") "null")); (SAssign (TName "spacerow") (XBin OMul (XList [(XConst (PV (VStr [])))]) (XLen (XName "renderers")))); (SFor "row" (XName "rows") [(SAssign (TName "cells") (XListComp (XIfExp (XCompare (XIndex (XName "$item") (XConst (PInt 1))) [(CIsNot, (XConst PNone))]) (XCallMethod (XIndex (XName "$item") (XConst (PInt 0))) "format" [(XIndex (XName "$item") (XConst (PInt 1)))]) (XName "null")) "$item" (XPrim "builtins.zip" [(XName "renderers"); (XName "row")]) None)); (SIf (XNot (XPrim "truth" [(XPrim "builtins.any" [(XListComp (XPrim "isinstance:list" [(XName "cell")]) "cell" (XName "cells") None)])])) [(SYield (XName "cells"))] [(SAssign (TName "cells") (XListComp (XIfExp (XPrim "truth" [(XPrim "isinstance:list" [(XName "cell")])]) (XName "cell") (XList [(XName "cell")])) "cell" (XName "cells") None)); (SAssign (TName "nlines") (XPrim "builtins.max" [(XConst (PInt 1)); (XPrim "builtins.max" [(XListComp (XLen (XName "cell")) "cell" (XName "cells") None)])])); (SAssign (TName "$new") (XList [])); (SFor "cell" (XName "cells") [(SIf (XCompare (XLen (XName "cell")) [(CLt, (XName "nlines"))]) [(SExpr (XMethod (TName "cell") "extend" [(XBin OMul (XList [(XConst (PV (VStr [])))]) (XBin OSub (XName "nlines") (XLen (XName "cell"))))]))] []); (SExpr (XMethod (TName "$new") "append" [(XName "cell")]))]); (SAssign (TName "cells") (XName "$new")); (SFor "$y" (XPrim "zip*" [(XName "cells")]) [(SYield (XName "$y"))])]); (SIf (XPrim "truth" [(XAttr (XName "ctx") "spaced")]) [(SYield (XName "spacerow"))] [])])];
      f_gen := true |}.
 
+(* beanquery.query_render.render_csv (without its unused **kwargs) *)
+Definition render_csv_fn : fdef :=
+  {| f_params := ["columns"; "rows"; "dcontext"; "file"; "expand"; "nullvalue"];
+     f_body := [(SAssign (TName "ctx") (XPrim "beanquery.query_render.RenderContext:expand,spaced,listsep,null" [(XName "dcontext"); (XName "expand"); (XConst (PBool false)); (XConst (PV (VStr [44]))); (XName "nullvalue")])); (SAssign (TName "renderers") (XListComp (XCall (XConst (PRef 0)) [(XAttr (XName "column") "datatype"); (XName "ctx")] None) "column" (XName "columns") None)); (SAssign (TName "headers") (XListComp (XAttr (XName "column") "name") "column" (XName "columns") None)); (SFor "row" (XName "rows") [(SAssign (TName "$new") (XList [])); (SForUnpack ["value"; "renderer"] (XPrim "builtins.zip" [(XName "row"); (XName "renderers")]) [(SIf (XCompare (XName "value") [(CIsNot, (XConst PNone))]) [(SExpr (XMethod (TName "renderer") "update" [(XName "value")]))] []); (SExpr (XMethod (TName "$new") "append" [(XName "renderer")]))]); (SAssign (TName "renderers") (XBin OAdd (XName "$new") (XSlice (XName "renderers") (Some (XLen (XName "$new"))) None)))]); (SExpr (XListComp (XCallMethod (XName "render") "prepare" []) "render" (XName "renderers") None)); (SAssign (TName "writer") (XPrim "_csv.writer" [(XName "file")])); (SExpr (XMethod (TName "writer") "writerow" [(XName "headers")])); (SExpr (XMethod (TName "writer") "writerows" [(XCall (XConst (PRef 1)) [(XName "rows"); (XName "renderers"); (XName "ctx")] None)]))];
+     f_gen := false |}.
+Definition render_csv_fn_defaults : list expr := [(XConst (PBool false)); (XConst (PV (VStr [])))].
+
 Definition refs : list (nat * string) :=
-  [].
+  [(0%nat, "beanquery.query_render._get_renderer"); (1%nat, "beanquery.query_render.render_rows")].
